@@ -137,7 +137,7 @@ func ParseField(v reflect.Value, bytes []byte, params fieldParameters) error {
 		return nil
 	case EnumeratedType:
 		val, parse_err := parseInt64(bytes[talOff:])
-		if err != nil {
+		if parse_err != nil {
 			return parse_err
 		}
 
@@ -153,14 +153,14 @@ func ParseField(v reflect.Value, bytes []byte, params fieldParameters) error {
 		if tal.len < 1 {
 			return fmt.Errorf("BOOLEAN without contents")
 		}
-		if parsedBool, parse_err := parseBool(bytes[talOff]); err != nil {
+		if parsedBool, parse_err := parseBool(bytes[talOff]); parse_err != nil {
 			return parse_err
 		} else {
 			val.SetBool(parsedBool)
 			return nil
 		}
 	case reflect.Int, reflect.Int32, reflect.Int64:
-		if parsedInt, parse_err := parseInt64(bytes[talOff:]); err != nil {
+		if parsedInt, parse_err := parseInt64(bytes[talOff:]); parse_err != nil {
 			return parse_err
 		} else {
 			val.SetInt(parsedInt)
